@@ -36,6 +36,8 @@ Points == {
   P("half",      FALSE, {"Float64", "Float32"}, {"float32", "float64", "decstr", "expstr", "jsonnum"}),
   P("minusHalf", FALSE, {"Float64", "Float32"}, {"float32", "float64", "decstr", "expstr", "jsonnum"}),
   P("big7.75",   FALSE, {"Float64", "Float32"}, {"float32", "float64", "decstr", "expstr", "jsonnum"}),
+  \* a hair below a whole number: still a fraction (truncated toward zero into integers, never rounded up)
+  P("nearInt",   FALSE, {"Float64", "Float32"}, {"float64", "decstr", "expstr", "jsonnum"}),
   P("maxI32",    TRUE,  Dests, AllInt \cup {"int32"}),
   P("maxI32+1",  TRUE,  {"Int", "Int64", "Float64", "Float32"}, AllInt \cup {"float32"}),
   P("minI32",    TRUE,  Dests, AllInt \cup {"int32", "float32"}),
@@ -63,7 +65,7 @@ IntDest(d) == d \in {"Int", "Int64", "Int32"}
 Finite(p) == p.name \notin {"NaN", "+Inf", "-Inf"}
 
 \* the points whose truncation toward zero fits every integer schema
-SmallFraction(p) == p.name \in {"half", "minusHalf", "big7.75"}
+SmallFraction(p) == p.name \in {"half", "minusHalf", "big7.75", "nearInt"}
 
 Rows == {r \in [rep : Reps, dest : Dests, point : Points] : r.rep \in r.point.reps}
 
